@@ -105,6 +105,11 @@ def make_app(scripts: List[list], rec: Rec, sleep: Callable[[float], Awaitable[N
         idx = counter["n"]
         counter["n"] += 1
         me = {"id": idx, "scope": scope_proj(scope), "recv": [], "send": [], "exit": None, "t_start": rec.t()}
+        # the (per-connection copy of the) lifespan state this instance sees; every instance leaves a mark in it, which the next
+        # instance on the same connection sees and the worker's own dict (`WORKER_STATE`, read back in `_finish`) must never show
+        if isinstance(scope.get("state"), dict):
+            me["state_seen"] = sorted([str(k), str(v)] for k, v in scope["state"].items())
+            scope["state"]["seen_by"] = idx
         rec.apps.append(me)
         rec.label("appStart", idx, scope["type"])
         steps = scripts[idx % len(scripts)]
@@ -449,7 +454,8 @@ def run_asyncio(cfg: dict, alpn: Optional[str], client: Callable[[ClientIO], Awa
         io = AsyncioIO(rec, loop, alpn == "h2")
         ctx = WorkerContext(None)
         served = wrap(rec, "asyncio") if wrap is not None else ASGIWrapper(make_app(scripts, rec, asyncio.sleep))
-        srv = TCPServer(served, loop, config, ctx, {}, io.reader, io.writer)
+        res["worker_state"] = {"boot": "L"}
+        srv = TCPServer(served, loop, config, ctx, res["worker_state"], io.reader, io.writer)
         task = loop.create_task(srv.run())
         done_at: List[int] = []
         task.add_done_callback(lambda t: (done_at.append(rec.t()), rec.label("handlerDone")))
@@ -501,7 +507,8 @@ def _finish(res: dict, rec: Rec, loop_errors: List[str], turns: int) -> dict:
             "labels": rec.labels, "apps": rec.apps,
             "access": rec.access, "exceptions": rec.exceptions, "handler_done": res.get("handler_done"), "error": res.get("error"),
             "live_tasks": res.get("live_tasks"), "loop_errors": loop_errors, "turns": turns, "client_error": res.get("client_error"),
-            "client_result": res.get("client_result")}
+            "client_result": res.get("client_result"),
+            "worker_state_after": sorted([str(k), str(v)] for k, v in (res.get("worker_state") or {}).items())}
 
 
 # --------------------------------------------------------------------------------------------------------------
@@ -692,7 +699,8 @@ def run_trio(cfg: dict, alpn: Optional[str], client: Callable[[ClientIO], Awaita
         stream = SSLStream() if alpn == "h2" else Stream()
         ctx = WorkerContext(None)
         served = wrap(rec, "trio") if wrap is not None else ASGIWrapper(make_app(scripts, rec, trio.sleep))
-        srv = TCPServer(served, config, ctx, {}, stream)
+        res["worker_state"] = {"boot": "L"}
+        srv = TCPServer(served, config, ctx, res["worker_state"], stream)
         done_at: List[int] = []
         err: List[Any] = []
 
